@@ -1,10 +1,10 @@
 """C10 - responses are framed exactly: `;` between units, `,` between data, one final NL."""
 from .. import facts, fdai, scpi_models as M, sym
 from ..fdai import EnumV, AggV, K, SymV, RefV, Cell, Loc, TOP, load
-from . import dispatch as D
+from . import dispatch as D, emit as E
 
 LEVEL = "other"
-TECHNIQUE = "FDAI path enumeration of Node::run_tokens (message_start once; terminator on every successful exit iff the buffer is non-empty), of the Formatter methods as each formatter gets them - its impl's or the trait's provided ones (unit separator iff non-empty, terminator once) - and of ResponseUnit::{header,data} (separator decision table over has_header x has_data); emission tables of the list writers (elements joined by one `,`); separator constants vs IEEE 488.2 section 8; who-may-write census for Formatter output methods; error-item emission table (code, quoted text)"
+TECHNIQUE = "FDAI path enumeration of Node::run_tokens (message_start once; terminator on every successful exit iff the buffer is non-empty), of the Formatter methods as each formatter gets them - its impl's or the trait's provided ones (unit separator iff non-empty, terminator once) - and of ResponseUnit::{header,data} (separator decision table over the four unit states header-written x datum-written, obtained from the library's own header/data calls and described by what the next call writes); emission tables of the list writers (elements joined by one `,`); separator constants vs IEEE 488.2 section 8; who-may-write census for Formatter output methods; error-item emission table (code, quoted text)"
 LEVEL_TEXT = "Structural decision over all abstract paths: every successful exit of the unit loop is checked to pass through `if !is_empty { message_end }` exactly once, message_start happens once before the first unit, response_unit is opened exactly once per query and never for an event (C02 table), the two formatter impls push `;` iff the buffer is non-empty and NL exactly once, and ResponseUnit's separator table is enumerated over its four flag states. Constants are compared with 488.2 section 8."
 LEVEL_NOTE = "Not decided: what handlers choose to write through ResponseUnit; user Formatter impls. Trusted: rustc MIR, FDAI models."
 
@@ -79,13 +79,11 @@ def run(R, tier):
                     good = False
             if pi.outcome == "Ok":
                 v = r.retval.fields.get(0)
-                fl = u.adts["scpi::parser::response::ResponseUnit"]["variants"][0]["fields"]
-                names_ = [f["name"] for f in fl]
+                fi_, ri_, si_ = E.unit_layout(u)
                 if isinstance(v, AggV):
-                    hh = v.fields.get(names_.index("has_header"))
-                    hd = v.fields.get(names_.index("has_data"))
-                    rs = v.fields.get(names_.index("result"))
-                    if not (isinstance(hh, K) and hh.v is False and isinstance(hd, K) and hd.v is False and isinstance(rs, EnumV) and rs.name == "Ok"):
+                    rs = v.fields.get(ri_)
+                    # a fresh unit: no error latched, and its next header/data write what a unit without header and data writes
+                    if not (isinstance(rs, EnumV) and rs.name == "Ok" and E.unit_behaves_like(P, {i: v.fields.get(i) for i in si_}, False, False)):
                         good = False
                 else:
                     good = False
@@ -117,7 +115,8 @@ def run(R, tier):
 
     # ---- R10.5 ResponseUnit separator table -----------------------------------------------------------------------
     ru_adt = "scpi::parser::response::ResponseUnit"
-    fields = [f["name"] for f in u.adts[ru_adt]["variants"][0]["fields"]]
+    fi_, ri_, si_ = E.unit_layout(u)
+    states = E.unit_states(P)   # the four bookkeeping states as the library's own header/data calls leave them
     for meth in ("data", "header"):
         b = u.body("scpi::parser::response::ResponseUnit::" + meth)
         for hh in (False, True):
@@ -125,8 +124,7 @@ def run(R, tier):
                 if meth == "header" and hd:
                     continue
                 fmtcell = Cell(TOP, "fmt")
-                vals = {"fmt": RefV(fmtcell, (), True), "result": fdai.mk_ok(fdai.UNIT), "has_header": K(hh), "has_data": K(hd)}
-                ucell = Cell(AggV(ru_adt, {i: vals.get(n, TOP) for i, n in enumerate(fields)}), "unit")
+                ucell = Cell(E.mk_unit(u, states[(hh, hd)], fmt=RefV(fmtcell, (), True)), "unit")
                 res = eng.run(b, [RefV(ucell, (), True), SymV("payload", "payload")])
                 seqs = set()
                 flags_ok = True
@@ -136,22 +134,17 @@ def run(R, tier):
                     rv = r.retval
                     final = load(Loc(rv.cell, rv.path)) if isinstance(rv, RefV) else None
                     if isinstance(final, AggV):
-                        f_hh = final.fields.get(fields.index("has_header"))
-                        f_hd = final.fields.get(fields.index("has_data"))
-                        if meth == "data" and not (isinstance(f_hd, K) and f_hd.v is True and isinstance(f_hh, K) and f_hh.v == hh):
-                            flags_ok = False
-                        if meth == "header" and not (isinstance(f_hh, K) and f_hh.v is True and isinstance(f_hd, K) and f_hd.v == hd):
+                        # the element is recorded: from here the unit writes what a unit with the element writes
+                        want = (hh, True) if meth == "data" else (True, hd)
+                        if not E.unit_behaves_like(P, {i: final.fields.get(i) for i in si_}, *want):
                             flags_ok = False
                     else:
                         flags_ok = False
                 full = max(seqs, key=len) if seqs else ()
-                if meth == "data":
-                    exp = (("data_separator",) if hd else ("header_separator",) if hh else ()) + ("format_response_data",)
-                else:
-                    exp = (("push_byte:58",) if hh else ()) + ("push_str",)
+                exp = E.unit_spec_writes(meth, hh, hd)
                 prefixes_ok = all(s == exp[: len(s)] for s in seqs)
                 R.check(full == exp and prefixes_ok and flags_ok, "R10.5", "ResponseUnit::%s[has_header=%s,has_data=%s]" % (meth, hh, hd), "writes %s and records the element" % (list(exp),),
-                        "ResponseUnit::%s with has_header=%s has_data=%s must write %s (and set its flag); it writes %s%s" % (meth, hh, hd, list(exp), sorted(seqs), "" if flags_ok else " and leaves the flags wrong"), where=b.span)
+                        "ResponseUnit::%s with has_header=%s has_data=%s must write %s (and record the element); it writes %s%s" % (meth, hh, hd, list(exp), sorted(seqs), "" if flags_ok else " and does not record the element for the next call"), where=b.span)
 
     # ---- R10.7 who may write ------------------------------------------------------------------------------------------
     OUT = ("push_str", "push_byte", "push_ascii", "data_separator", "header_separator")
@@ -221,7 +214,6 @@ def run(R, tier):
     # ---- R10.8 a list answers as its elements joined by `,` - none leading, trailing, doubled or missing -------------------
     # Emission tables (sa/rules/emit.py) of the list writers on lists of 1, 2, 3 and 5 opaque elements: what reaches the
     # Formatter must be el0 , el1 , ... in order. (The empty list is C09's business.)
-    from . import emit as E
     em = E.engine()
     n_l = 0
     for unit in P.units:
